@@ -353,6 +353,148 @@ func C19(p *Prog, r *Run) {
 		r.Check(okSolved, "AvgWinnerStatistics.solved-only", p.Pos(aw.Pos()), "only solved trials contribute", "winner statistics are accumulated for trials that are not solved")
 	})
 
+	r.Rule("C19.6", "per-trial and per-generation series are element-wise maps of the recorded values: result[i] is the named statistic of element i (best organism's fitness, species age, complexity; champion's fitness, species age, complexity; the generation's three averages in order), the result has one entry per element, and the generation averages are the means of the recorded per-species series", func() {
+		type em struct {
+			fn, list string
+			res      int
+			want     string
+		}
+		table := []em{
+			{"Experiment.BestFitness", "recv.Trials", 0, "Trial.BestOrganism(&recv.Trials[*],false)#0.Fitness"},
+			{"Experiment.BestSpeciesAge", "recv.Trials", 0, "float64(Trial.BestOrganism(&recv.Trials[*],false)#0.Species.Age)"},
+			{"Experiment.BestComplexity", "recv.Trials", 0, "float64(organismComplexity(Trial.BestOrganism(&recv.Trials[*],false)#0))"},
+			{"Trial.ChampionsFitness", "recv.Generations", 0, "&recv.Generations[*].Champion.Fitness"},
+			{"Trial.ChampionSpeciesAges", "recv.Generations", 0, "float64(&recv.Generations[*].Champion.Species.Age)"},
+			{"Trial.ChampionsComplexities", "recv.Generations", 0, "float64(Generation.ChampionComplexity(&recv.Generations[*]))"},
+			{"Trial.Average", "recv.Generations", 0, "Generation.Average(&recv.Generations[*])#0"},
+			{"Trial.Average", "recv.Generations", 1, "Generation.Average(&recv.Generations[*])#1"},
+			{"Trial.Average", "recv.Generations", 2, "Generation.Average(&recv.Generations[*])#2"},
+		}
+		for _, e := range table {
+			fn := p.Func(PkgE, e.fn)
+			r.Fn(FuncName(fn))
+			tm := NewTermer(fn)
+			cons := fmt.Sprintf("%s#%d", e.fn, e.res)
+			// the returned slice
+			var res ssa.Value
+			for _, b := range fn.Blocks {
+				if ret, ok := b.Instrs[len(b.Instrs)-1].(*ssa.Return); ok && e.res < len(ret.Results) {
+					res = ret.Results[e.res]
+				}
+			}
+			for {
+				if ct, ok := res.(*ssa.ChangeType); ok {
+					res = ct.X
+					continue
+				}
+				break
+			}
+			ms, ok := res.(*ssa.MakeSlice)
+			if !ok {
+				r.Bad(cons, p.Pos(fn.Pos()), e.fn+" does not return a freshly made series")
+				continue
+			}
+			okLen := tm.Of(ms.Len).String() == "len("+e.list+")"
+			okElem, n := true, 0
+			var got []string
+			for _, st := range elemStoresInto(fn, ms) {
+				n++
+				ia := st.Addr.(*ssa.IndexAddr)
+				vt := tm.Of(st.Val)
+				got = append(got, vt.String())
+				if strings.NewReplacer(" ", "", "&", "").Replace(vt.String()) != strings.ReplaceAll(e.want, "&", "") {
+					okElem = false
+				}
+				// same index on both sides: the element index of the list read equals the index written
+				same := false
+				vt.Walk(func(x *Term) bool {
+					if x.Op == "elem" && x.Args[0].String() == e.list && len(x.Args) > 1 && x.Args[1].V == ia.Index {
+						same = true
+					}
+					return true
+				})
+				l := InnermostLoop(Loops(fn), st.Block())
+				if !same || l == nil || !loopRangesOver(tm, l, e.list) {
+					okElem = false
+				}
+			}
+			// stores into a named-type slice go through a ChangeType: look there too
+			if n == 0 {
+				for _, ref := range *ms.Referrers() {
+					if ct, ok := ref.(*ssa.ChangeType); ok {
+						for _, st := range elemStoresInto(fn, ct) {
+							n++
+							ia := st.Addr.(*ssa.IndexAddr)
+							vt := tm.Of(st.Val)
+							got = append(got, vt.String())
+							if strings.NewReplacer(" ", "", "&", "").Replace(vt.String()) != strings.ReplaceAll(e.want, "&", "") {
+								okElem = false
+							}
+							same := false
+							vt.Walk(func(x *Term) bool {
+								if x.Op == "elem" && x.Args[0].String() == e.list && len(x.Args) > 1 && x.Args[1].V == ia.Index {
+									same = true
+								}
+								return true
+							})
+							if !same {
+								okElem = false
+							}
+						}
+					}
+				}
+			}
+			r.Check(okLen && okElem && n == 1, cons, p.Pos(fn.Pos()), "series[i] = "+e.want+", one entry per element of "+e.list,
+				fmt.Sprintf("%s (result %d): length ok=%v, element stores=%d %v; expected series[i] = %s for every i", e.fn, e.res, okLen, n, got, e.want))
+		}
+		ga := p.Func(PkgE, "Generation.Average")
+		gtm := NewTermer(ga)
+		okGA := false
+		for _, b := range ga.Blocks {
+			if ret, ok := b.Instrs[len(b.Instrs)-1].(*ssa.Return); ok && len(ret.Results) == 3 {
+				okGA = gtm.Of(ret.Results[0]).String() == "Floats.Mean(recv.Fitness)" && gtm.Of(ret.Results[1]).String() == "Floats.Mean(recv.Age)" && gtm.Of(ret.Results[2]).String() == "Floats.Mean(recv.Complexity)"
+			}
+		}
+		r.Check(okGA, "Generation.Average", p.Pos(ga.Pos()), "(mean fitness, mean age, mean complexity) of the recorded per-species series", "Generation.Average does not return the means of Fitness, Age and Complexity in this order")
+		// winner statistics: the four values come from the same (first solved) generation, field by field
+		ws := p.Func(PkgE, "Trial.WinnerStatistics")
+		wtm := NewTermer(ws)
+		wantF := []string{"WinnerNodes", "WinnerGenes", "WinnerEvals", "Diversity"}
+		okWS := false
+		for _, b := range ws.Blocks {
+			if ret, ok := b.Instrs[len(b.Instrs)-1].(*ssa.Return); ok && len(ret.Results) == 4 {
+				okWS = true
+				for i, v := range ret.Results {
+					for _, a := range wtm.Of(v).Alternatives() {
+						if a.Op == "const" {
+							continue
+						}
+						if !(a.Op == "field" && a.Name == wantF[i]) {
+							okWS = false
+						}
+					}
+				}
+			}
+		}
+		// the generation picked in the scan is a solved one and the scan stops there
+		okSolved := false
+		for _, st := range FieldStores(ws, p.Field(PkgE, "Trial", "WinnerGeneration")) {
+			for _, g := range Guards(st.Block()) {
+				if gt := wtm.Of(g.Cond); gt.Op == "field" && gt.Name == "Solved" && g.True {
+					okSolved = true
+				}
+			}
+			if l := scanLoopOf(Loops(ws), st.Block()); l != nil {
+				if FindPath(p, PathQuery{Fn: ws, StartAfter: st, FlagBlind: true, Target: func(in ssa.Instruction) bool {
+					return in.Block() == l.Header && instrIndex(in) == len(l.Header.Instrs)-1
+				}}) != nil {
+					okSolved = false
+				}
+			}
+		}
+		r.Check(okWS && okSolved, "Trial.WinnerStatistics", p.Pos(ws.Pos()), "(nodes, genes, evaluations, diversity) of the first solved generation", fmt.Sprintf("WinnerStatistics: values are the winner fields in order=%v, taken from the first generation reported solved=%v", okWS, okSolved))
+	})
+
 	r.Rule("C19.4", "aggregates as origins: success rate, solved counts, epochs per trial, diversity and best organism are computed from the recorded generations as defined", func() {
 		type agg struct {
 			fn    string
